@@ -302,6 +302,54 @@ def build(tier="quick", seed=0):
     pack.add(Obligation("C15.projection[all ordered selections of a, b, c, zz x exclusion lists]", run_rewrite, replay=lambda w: {"call": "c15_rewrite", "args": {"fields": w.get("fields"), "exclude": w.get("exclude")}}, functions=FU,
                         mode="finite case analysis over selection / exclusion lists, symbolic values"))
 
+    # one rewriter over a stream that mixes record types that share a name (schema generations; csv / plain-JSON readers use one name): every record is
+    # projected with ITS descriptor, whatever the rewriter saw before
+    def run_rewrite_history(tier):
+        total = 0
+        RW = st.g["RecordFieldRewriter"]
+        gens = {"g1": [("varint", "a"), ("filesize", "b")], "g2": [("filesize", "b"), ("uint32", "c"), ("varint", "a")], "other": [("uint16", "b"), ("varint", "z")]}
+        names = {"g1": "c15/gen", "g2": "c15/gen", "other": "c15/other"}
+        for fsel, ex in ((["a", "c"], None), (None, ["a"]), (["b", "a"], ["zz"]), (["c"], None)):
+            for order in itertools.permutations(["g1", "g2", "other"]):
+                def th(fsel=fsel, ex=ex, order=order):
+                    for v in vals[:6]:
+                        it.assume(z3.And(v >= 0, v <= 65535))
+                    rw = it.call(RW, [], {"fields": fsel, "exclude": ex})
+                    out = []
+                    for rnd in range(2):
+                        for i, g in enumerate(order):
+                            D = it.call(RD, [names[g], list(gens[g])], {})
+                            rec = it.call(D, [], {n: SInt(vals[(i + j) % 6]) for j, (_, n) in enumerate(gens[g])})
+                            o = it.call(it.getattr_(rw, "rewrite"), [rec], {})
+                            out.append((g, i, fields_of(it.getattr_(o, "_desc")), {n: o.attrs.get(n) for _, n in fields_of(it.getattr_(o, "_desc"))}))
+                    return out
+
+                def judge(p, fsel=fsel, ex=ex):
+                    conj = []
+                    for g, i, got_fields, got_vals in p.value:
+                        exs = ex or []
+                        base_fields = gens[g]
+                        if fsel:
+                            want = [(dict((n, t) for t, n in base_fields)[n], n) for n in fsel if n in [m for _, m in base_fields] and n not in exs]
+                        else:
+                            want = [(t, n) for t, n in base_fields if n not in exs]
+                        if got_fields != want:
+                            return False, f"fields={fsel} exclude={ex}: a {g} record {base_fields} was projected to {got_fields}, expected {want} (the rewriter saw other same-name types before)"
+                        for t, n in want:
+                            j = [m for _, m in base_fields].index(n)
+                            conj.append(it.zint(got_vals[n]) == vals[(i + j) % 6])
+                    return (z3.And(*conj) if conj else True), "a projected value changed"
+
+                r = prove_paths("x", th, judge, lambda m_, p, fsel=fsel, ex=ex, order=order: {"fields": fsel, "exclude": ex, "order": list(order)})
+                total += r.paths
+                if r.status != "proved":
+                    r.paths = total
+                    return r
+        return Result("x", "proved", paths=total)
+
+    pack.add(Obligation("C15.projection.history[one rewriter, two generations of one type name and another type, every order, twice]", run_rewrite_history, replay=lambda w: {"call": "c15_rewrite_history", "args": {"fields": w.get("fields"), "exclude": w.get("exclude"), "order": w.get("order")}},
+                        functions=FU, mode="concrete histories through one rewriter object, symbolic values"))
+
     # ------------------------------------------------------------------ canary / bounded
     def run_canary(tier):
         def th():
